@@ -58,11 +58,12 @@ def main():
     ap = argparse.ArgumentParser(); ap.add_argument('prop'); ap.add_argument('--tier', default=os.environ.get('VERIF_TIER', 'quick'))
     ap.add_argument('--only'); ap.add_argument('--par', type=int, default=0); ap.add_argument('--keep', action='store_true')
     a = ap.parse_args()
-    pid = a.prop; tier = a.tier if a.tier in ('quick', 'thorough') else 'quick'
+    pid = a.prop; tier = a.tier if a.tier in ('quick', 'thorough', 'deep') else 'quick'
     seed = int(os.environ.get('VERIF_SEED', '0') or 0)
     t0 = time.time()
     P = props.PROPS[pid]
-    hs = [h for h in P['harnesses'] if tier == 'thorough' or h.get('tier', 'quick') == 'quick']
+    rank = {'quick': 0, 'thorough': 1, 'deep': 2}
+    hs = [h for h in P['harnesses'] if rank[h.get('tier', 'quick')] <= rank[tier]]
     if a.only: hs = [h for h in hs if re.search(a.only, h['name'])]
     wd = os.path.join(OUT, 'run', pid); shutil.rmtree(wd, ignore_errors=True); os.makedirs(wd)
     rdir = os.path.join(OUT, 'replay', pid); shutil.rmtree(rdir, ignore_errors=True); os.makedirs(rdir)
@@ -167,7 +168,7 @@ def main():
         hsum.append(ent)
     wall = time.time() - t0
     ev_native = dict(native_runs_agreeing=nat_ok, native_compilers=(['clang++-14 -O1', 'g++ -O2'] if tier == 'thorough' else ['g++ -O2']))
-    ev = dict(property_id=pid, tier=tier, seed=seed, level=P.get('level', 'model_checking'), wall_s=round(wall, 1),
+    ev = dict(property_id=pid, tier=('thorough' if tier == 'deep' else tier), seed=seed, level=P.get('level', 'model_checking'), wall_s=round(wall, 1),
               violations=len(viol_lines),
               coverage=dict(states=max(states, 1), transitions=max(trans, 1), traces_validated_against_impl=wrep,
                             samples=samples or [dict(note='no witness sample (all harnesses inconclusive)')],
